@@ -18,4 +18,8 @@ def obligations(tier):
         obs.append(Ob(f"C12.pk/item1={i}", "drv", "c_items", {"VF_I1": i, "VF_NAMES": 0}, 300 if tier == "quick" else 900,
                       ["real LALR driver + actions + BaseData post-processing (harness/drv.py c_items)"],
                       "primary_key is a list of the table's column names also when key parts carry ASC / DESC: item #%d + any second table-level item (symbolic)" % i))
+    obs.append(Ob("C12.pk/normalize-names", "pipe", "c_norm_pipe", {}, 300 if tier == "quick" else 900,
+                  ["whole pipeline (harness/pipe.py)"], "primary_key names the table's columns also under normalize_names=True with a CHECK before the key list"))
+    obs.append(Ob("C12.pk/drop-exact-name", "c04", "c_drop_exact", {}, 300 if tier == "quick" else 900,
+                  ["output/base_data.py:alter_drop_columns"], "after DROP COLUMN of columns whose names contain the key column's name, primary_key still names existing columns"))
     return obs
